@@ -138,14 +138,24 @@ def main(argv):
     exclude = []
     for e in known:
       if e.get('harness') == hname and e.get('status') == 'finding':
-        exclude.append(e['match'])
         r = run_replay(modname, h['fn'], e['witness'])
         if r['ok'] is False:
+          exclude.append(e['match'])
           known_lines.append('KNOWN-FINDING: property=%s %s' % (pid, e['what']))
-        else:
+        else:   # not excluded any more: the region is checked like everything else
           print('note: listed finding %s no longer reproduces (%s)' % (e.get('id'), r))
-    # 3. partitions
-    parts = list(partitions(t.get('split', {})))
+    # 3. partitions (one that a listed finding covers entirely has nothing left to explore)
+    def wholly_known(pins):
+      for m in exclude:
+        try:
+          if eval(m, {}, dict(pins)):
+            return True
+        except Exception:
+          pass   # the predicate needs parameters this partition leaves free
+      return False
+    base_pins = dict(t.get('fixed', {}))
+    parts = [p_ for p_ in partitions(t.get('split', {}))
+             if not wholly_known(dict(base_pins, **p_))]
     first_part = parts[0] if parts else {}
     rng.shuffle(parts)
     if parts:   # the vacuity twin runs on the first partition in declared order
